@@ -555,7 +555,7 @@ def c15(run, scratch):
         run.sample({"policy": cases[0]["policy"], "schedule": cases[0]["schedule"], "spec_expects": cases[0]["want"]})
 
         def corrupt(c):
-            c["want"]["ok"] = not c["want"]["ok"]
+            c["total"] = -1          # no implementation can produce a canonical file of this length
             return c
         replay_cases(run, scratch, "MC_CacheIO_policies", cases, "sink", corrupt=corrupt,
                      signature=lambda c, m: {"policy": c["policy"]["kind"]})
